@@ -365,34 +365,34 @@ end
 
 /-! ### bundles: the parameters, the translated methods of one package, the generated step machine -/
 
-/-- the parameters of the generated defs at F = ℕ -/
-structure Prims (BO : Type) where
-  fZero : Nat
-  fAdd : Nat → Nat → Nat
-  encrypt : Nat → Nat → Nat
-  boElement : BO → Bytes → Nat × Err
-  fBytes : Nat → Bytes
-  fSet : Nat → Bytes → Nat × Err
-  frHash : Bytes → Bytes → Int → List Nat × Err
+/-- the parameters of the generated defs (element type F, byte order type BO) -/
+structure Prims (F BO : Type) where
+  fZero : F
+  fAdd : F → F → F
+  encrypt : F → F → F
+  boElement : BO → Bytes → F × Err
+  fBytes : F → Bytes
+  fSet : F → Bytes → F × Err
+  frHash : Bytes → Bytes → Int → List F × Err
   frBE : BO
   BS : Int
 
 /-- the assumed behaviour of the parameters (see `ParamsOK`) for the instance `P` and a hasher whose byte order object is `bo` -/
-def OK (P : Params) {BO : Type} (bo : BO) (X : Prims BO) : Prop :=
+def OK (P : Params) {BO : Type} (bo : BO) (X : Prims Nat BO) : Prop :=
   ParamsOK P bo X.fZero X.fAdd X.encrypt X.boElement X.fBytes X.fSet X.BS
 
 /-- the translated functions of one mimc package, applied to the parameters -/
-structure Methods (BO : Type) where
-  reset : digest Nat BO → digest Nat BO
-  sum : digest Nat BO → Bytes → digest Nat BO × Bytes
-  write : digest Nat BO → Bytes → digest Nat BO × (Int × Err)
-  setState : digest Nat BO → Bytes → digest Nat BO × Err
-  state : digest Nat BO → digest Nat BO × Bytes
-  writeString : digest Nat BO → Bytes → digest Nat BO × Err
+structure Methods (F BO : Type) where
+  reset : digest F BO → digest F BO
+  sum : digest F BO → Bytes → digest F BO × Bytes
+  write : digest F BO → Bytes → digest F BO × (Int × Err)
+  setState : digest F BO → Bytes → digest F BO × Err
+  state : digest F BO → digest F BO × Bytes
+  writeString : digest F BO → Bytes → digest F BO × Err
   pkgSum : Bytes → Bytes × Err
 
 /-- the methods as translated from ecc/bn254/fr/mimc, with the length literal / first error message of `SetState` as given -/
-def refMethods {BO : Type} (X : Prims BO) (n : Int) (msg : String) : Methods BO where
+def refMethods {F BO : Type} [Inhabited F] (X : Prims F BO) (n : Int) (msg : String) : Methods F BO where
   reset := Mimc_bn254.Reset X.fZero X.fAdd X.encrypt X.boElement X.fBytes X.fSet X.frHash X.frBE X.BS
   sum := Mimc_bn254.Sum X.fZero X.fAdd X.encrypt X.boElement X.fBytes X.fSet X.frHash X.frBE X.BS
   write := Mimc_bn254.Write X.fZero X.fAdd X.encrypt X.boElement X.fBytes X.fSet X.frHash X.frBE X.BS
@@ -402,14 +402,14 @@ def refMethods {BO : Type} (X : Prims BO) (n : Int) (msg : String) : Methods BO 
   pkgSum := Mimc_bn254.pkgSum X.fZero X.fAdd X.encrypt X.boElement X.fBytes X.fSet X.frHash X.frBE X.BS
 
 /-- one call on the generated hasher, with its outcome in the model's vocabulary -/
-def gstep {BO : Type} (M : Methods BO) (d : digest Nat BO) : Op → digest Nat BO × Out
+def gstep {F BO : Type} (M : Methods F BO) (d : digest F BO) : Op → digest F BO × Out
   | .write p => ((M.write d p).1, outW (M.write d p).2)
   | .sum b => ((M.sum d b).1, .bytes (M.sum d b).2)
   | .reset => (M.reset d, .unit)
   | .state => ((M.state d).1, .bytes (M.state d).2)
   | .setState st => ((M.setState d st).1, outE (M.setState d st).2)
 
-def grun {BO : Type} (M : Methods BO) (d : digest Nat BO) : List Op → digest Nat BO × List Out
+def grun {F BO : Type} (M : Methods F BO) (d : digest F BO) : List Op → digest F BO × List Out
   | [] => (d, [])
   | op :: ops =>
     let r := gstep M d op
@@ -427,7 +427,7 @@ theorem step_h_lt (P : Params) (s : Digest) (op : Op) (hq : 0 < P.q) (h : s.h < 
                    · rename_i hc; exact hc.2
                    · exact h
 
-theorem gstep_refines {BO : Type} (P : Params) (bo : BO) (X : Prims BO) (n : Int) (msg : String)
+theorem gstep_refines {BO : Type} (P : Params) (bo : BO) (X : Prims Nat BO) (n : Int) (msg : String)
     (hok : OK P bo X) (hn : (P.size : Int) = n) (d : digest Nat BO) (hbo : d.byteOrder = bo) (hlt : d.h < P.q) (op : Op) :
     abs (gstep (refMethods X n msg) d op).1 = (step P (abs d) op).1 ∧
     (gstep (refMethods X n msg) d op).2 = (step P (abs d) op).2 ∧
@@ -458,7 +458,7 @@ theorem gstep_refines {BO : Type} (P : Params) (bo : BO) (X : Prims BO) (n : Int
   exact this
 
 /-- a refused call returns the hasher it was given (all fields) -/
-theorem gstep_error_unchanged {BO : Type} (P : Params) (bo : BO) (X : Prims BO) (n : Int) (msg : String)
+theorem gstep_error_unchanged {BO : Type} (P : Params) (bo : BO) (X : Prims Nat BO) (n : Int) (msg : String)
     (hok : OK P bo X) (hn : (P.size : Int) = n) (d : digest Nat BO) (hbo : d.byteOrder = bo) (op : Op)
     (he : (gstep (refMethods X n msg) d op).2 = .err) : (gstep (refMethods X n msg) d op).1 = d := by
   cases op with
@@ -476,7 +476,7 @@ theorem gstep_error_unchanged {BO : Type} (P : Params) (bo : BO) (X : Prims BO) 
   | state => simp [gstep] at he
   | reset => simp [gstep] at he
 
-theorem grun_refines {BO : Type} (P : Params) (bo : BO) (X : Prims BO) (n : Int) (msg : String)
+theorem grun_refines {BO : Type} (P : Params) (bo : BO) (X : Prims Nat BO) (n : Int) (msg : String)
     (hok : OK P bo X) (hn : (P.size : Int) = n) (ops : List Op) :
     ∀ (d : digest Nat BO), d.byteOrder = bo → d.h < P.q →
       abs (grun (refMethods X n msg) d ops).1 = (run P (abs d) ops).1 ∧
@@ -496,7 +496,7 @@ theorem grun_refines {BO : Type} (P : Params) (bo : BO) (X : Prims BO) (n : Int)
 /-! ### a canonical instance of the parameters (non-vacuity of `OK` for every `P`) -/
 
 /-- the parameters read off the model: addition mod q, the model's `encrypt`, block decoding in the byte order of `P` -/
-def canonical (P : Params) : Prims Unit where
+def canonical (P : Params) : Prims Nat Unit where
   fZero := 0
   fAdd a b := (a + b) % P.q
   encrypt := MiMC.encrypt P
